@@ -37,6 +37,9 @@ pub enum Terminal {
     Shutdown,
     DropLastHandle,
     Flush,
+    /// after a burst of records, two threads call shutdown() on two clones of the handle at the
+    /// same time; the observation follows the FIRST of the two calls that returns
+    ShutdownTwice,
 }
 
 #[derive(Clone, Debug, Serialize, Deserialize)]
@@ -92,6 +95,20 @@ struct Run {
 /// executes the ops and the terminal call; `observe` is called right after the terminal call
 /// returned, while the (dropped or shut down) logger objects may still be alive
 fn drive(case: &Case, log: Box<dyn log::Log>, handle: flexi_logger::LoggerHandle, after_flush: &mut dyn FnMut(&[String]) -> Result<(), String>) -> Run {
+    drive_x(case, log, handle, after_flush, false)
+}
+
+/// size of the burst before a double shutdown (small where every record may rotate a file)
+fn burst(case: &Case) -> u32 {
+    if case.cfg.rot.is_some() && case.out == Out::File {
+        80
+    } else {
+        1500
+    }
+}
+
+/// `exit_after`: (child process) the thread whose terminal call returns first ends the process
+fn drive_x(case: &Case, log: Box<dyn log::Log>, handle: flexi_logger::LoggerHandle, after_flush: &mut dyn FnMut(&[String]) -> Result<(), String>, exit_after: bool) -> Run {
     let mut run = Run { expected: Vec::new(), clone_drop_before_write: false, pending_bytes: 0, flush_failure: None };
     let mut q = 0u32;
     let mut clone_dropped = false;
@@ -176,6 +193,33 @@ fn drive(case: &Case, log: Box<dyn log::Log>, handle: flexi_logger::LoggerHandle
             std::mem::forget(handle);
             std::mem::forget(log);
         }
+        Terminal::ShutdownTwice => {
+            // a backlog for the writer thread / the buffer
+            for _ in 0..burst(case) {
+                let p = payload(0, q, 60);
+                q += 1;
+                log.log(&log::Record::builder().args(format_args!("{p}")).level(log::Level::Info).target("flv").module_path(Some("flv")).build());
+                run.pending_bytes += p.len() + 1;
+                run.expected.push(p);
+            }
+            let h2 = handle.clone();
+            let (tx, rx) = std::sync::mpsc::channel::<()>();
+            let go = std::sync::Arc::new(std::sync::Barrier::new(2));
+            for hd in [handle, h2] {
+                let (tx, go) = (tx.clone(), go.clone());
+                std::thread::spawn(move || {
+                    go.wait();
+                    hd.shutdown();
+                    if exit_after {
+                        unsafe { libc::_exit(0) }
+                    }
+                    let _ = tx.send(());
+                    std::mem::forget(hd);
+                });
+            }
+            let _ = rx.recv();
+            std::mem::forget(log);
+        }
     }
     run
 }
@@ -192,7 +236,7 @@ pub fn child_main(file: &Path) -> ! {
             unsafe { libc::_exit(7) }
         }
     };
-    let _ = drive(&case, log, handle, &mut |_| Ok(()));
+    let _ = drive_x(&case, log, handle, &mut |_| Ok(()), true);
     // no flush of Rust's own stdout buffer, no destructors
     unsafe { libc::_exit(0) }
 }
@@ -229,7 +273,7 @@ impl Property for P {
             prop_oneof![6 => Just(Out::File), 3 => Just(Out::Writer), 1 => Just(Out::Stdout), 1 => Just(Out::Stderr)],
             mode,
             prop::option::weighted(0.5, (prop_oneof![Just(30u64), Just(200u64), 10u64..400], naming_strat())),
-            prop_oneof![3 => Just(Terminal::Shutdown), 3 => Just(Terminal::DropLastHandle), 2 => Just(Terminal::Flush)],
+            prop_oneof![3 => Just(Terminal::Shutdown), 3 => Just(Terminal::DropLastHandle), 2 => Just(Terminal::Flush), 1 => Just(Terminal::ShutdownTwice)],
             suffix_strat(),
             prop::bool::weighted(0.3),
         )
@@ -400,6 +444,13 @@ impl Property for P {
                         }
                         LOp::CloneDrop => cd = true,
                         _ => {}
+                    }
+                }
+                if case.terminal == Terminal::ShutdownTwice {
+                    for _ in 0..burst(case) {
+                        run.expected.push(payload(0, q, 60));
+                        q += 1;
+                        run.pending_bytes += 61;
                     }
                 }
                 let got = if case.out == Out::Stdout { co.stdout } else { co.stderr };
